@@ -138,6 +138,28 @@ func zzvBuyDirectHook(req *types.MsgBuyDirect) func(s *zzinv.Step) {
 			zz.Assert(zz.Implies(e0, zz.And(e1 == zz.QLt(zz.QInt(0), left), zz.Implies(e1, zz.QEq(zz.QParse(o1.Quantity), left)))), "C07 BuyDirect reduces each order by exactly the quantities bought from it and removes it when filled")
 			db := zzinv.DeltaAccount(s.Signer, b)
 			zz.Assert(zz.QEq(zz.QAdd(db.Tradable, db.Retired), got), "C07 the buyer receives exactly the quantities bought of each batch")
+			// C07/C03, per entry: bid denom = ask denom of the order's own market, bid >= ask,
+			// auto-retire disabled only where the sell order allows it; the buyer gets retired
+			// credits exactly for the entries with auto-retire; a non-signer is paid only as the
+			// seller of a filled order, in that order's ask denomination
+			gotTradable, gotRetired := zz.QInt(0), zz.QInt(0)
+			paidHere := false
+			for _, o := range req.Orders {
+				var so marketapi.SellOrder
+				zz.OrmRow0(zzinv.TSellOrder, &so, o.SellOrderId)
+				var m marketapi.Market
+				mf := zz.OrmRow0(zzinv.TMarket, &m, so.MarketId)
+				zz.Assert(zz.And(mf, zz.StrEq(o.BidPrice.Denom, m.BankDenom)), "C07 BuyDirect succeeds only if each bid denom equals the ask denom of the order's own market")
+				ask, aok := sdk.NewIntFromString(so.AskAmount)
+				zz.Assert(zz.And(aok, zz.QLe(zz.QOf(ask), zz.QOf(o.BidPrice.Amount))), "C07 BuyDirect succeeds only if each bid is at least the ask")
+				zz.Assert(zz.Implies(o.DisableAutoRetire, so.DisableAutoRetire), "C07 auto-retire is disabled only where the sell order allows it")
+				q := zz.QIf(so.BatchKey == b, zz.QParse(o.Quantity), zz.QInt(0))
+				gotTradable = zz.QAdd(gotTradable, zz.QIf(o.DisableAutoRetire, q, zz.QInt(0)))
+				gotRetired = zz.QAdd(gotRetired, zz.QIf(o.DisableAutoRetire, zz.QInt(0), q))
+				paidHere = zz.Or(paidHere, zz.And(zz.BytesEq(so.Seller, a), zz.StrEq(m.BankDenom, s.Sk.Denom)))
+			}
+			zz.Assert(zz.And(zz.QEq(db.Tradable, gotTradable), zz.QEq(db.Retired, gotRetired)), "C07 the buyer receives retired credits exactly for the entries with auto-retire and tradable credits for the others")
+			zz.Assert(zz.Implies(zz.QLt(zz.BankBal0(a, s.Sk.Denom), zz.BankBal1(a, s.Sk.Denom)), paidHere), "C03 BuyDirect pays a non-signer only as the seller of a filled order and only in that order's ask denomination")
 		}
 		// C18: whatever the accepted fee parameters, a purchase never aborts because one of
 		// the computed transfers (payment, fee, burn) truncates to a zero coin, which the
@@ -155,7 +177,14 @@ func VerifHarness_Step_MarketBuyDirect() {
 // configuration without marketplace fees and with moderate prices: the part of the two-entry
 // state space that is cheap enough to explore (stated restriction; the general one-entry
 // harness above has no such restriction).
-func VerifHarness_Step_MarketBuyDirectTwo() {
+func VerifHarness_Step_MarketBuyDirectTwo() { zzvBuyDirectTwo(false) }
+
+// The same executions with the light obligation set (C01/C03/C04/C05/C06/C07/C18 and the
+// BuyDirect hook): cheap enough for the quick tier.
+func VerifHarness_Step_MarketBuyDirectTwoLight() { zzvBuyDirectTwo(true) }
+
+func zzvBuyDirectTwo(light bool) {
+	zzinv.Light = light
 	req := &types.MsgBuyDirect{}
 	zzvRunStep(req, func(k Keeper, ctx context.Context) error {
 		zz.Assume(len(req.Orders) == 2)
